@@ -12,12 +12,15 @@ Driver/DfaQuery.lean — commands of drv_dfa_query (C13, C14, C20).  Core only.
                                   (queries: A C WO IO NX CARD LEN MIN MAX EMPTY FINITE RW SU FI SO CLR
                                    MINI TOP OT; SO opens a successors generator advanced by NX)
 
+  NHISTORY <nfa> n q…           → per NFA query (A w | RD w | VC tag | OT tag): answer ; memo flag ; pure-agreement flag
+
 Symbols are their rank in Python's (code point) order, so the natural order is `key = id`.
 `<start>` is `N` or a word; `max` is `N` or a natural; `<keys>` lists the key value of every
 symbol rank.
 -/
 import AutomataVerif.Driver.Proto
 import AutomataVerif.Model.DFACache
+import AutomataVerif.Model.NFACache
 
 namespace AV.Driver.DfaQuery
 open AV AV.Proto AV.DFA
@@ -225,6 +228,35 @@ def cmdHistory : P String := do
       go qs r.1 p.1 ((showAns r.2 ++ " ; " ++ showInst r.1 ++ " ; " ++ showBool same) :: acc)
   pure (" | ".intercalate (go qs Inst.fresh [] []))
 
+/-! ### NHISTORY (NFA instance: the `_get_lambda_closures` memo) -/
+
+def nquery : P (NFA.NQuery Int) := do
+  let t ← tok
+  match t with
+  | "A" => let w ← word; pure (.accepts w)
+  | "RD" => let w ← word; pure (.readStepwise w)
+  | "VC" => let tag ← nat; pure (.viaClosures tag)
+  | "OT" => let tag ← nat; pure (.other tag)
+  | _ => throw s!"unknown NFA query {t}"
+
+def showNAns : NFA.NAns Int → String
+  | .bool b => "bool " ++ showBool b
+  | .exn e => "exn " ++ e.name
+  | .configs cs e => "configs " ++ showList showSet cs ++ " " ++ showExn e
+  | .opaque t => "opaque " ++ toString t
+
+def cmdNHistory : P String := do
+  let n ← nfa
+  let qs ← many nquery
+  let ext : NFA.NExt Int := { other := fun t => t, viaTable := fun t _ => t }
+  let rec go : List (NFA.NQuery Int) → NFA.NInst Int → List String → List String
+    | [], _, acc => acc.reverse
+    | q :: qs, s, acc =>
+      let r := n.nstep ext s q
+      let same := decide (r.2 = n.nstepPure ext q)
+      go qs r.1 ((showNAns r.2 ++ " ; " ++ flag r.1.closures ++ " ; " ++ showBool same) :: acc)
+  pure (" | ".intercalate (go qs NFA.NInst.fresh []))
+
 def handle (cmd : String) (args : List String) : Except String String :=
   match cmd with
   | "COUNT" => run cmdCount args
@@ -235,6 +267,7 @@ def handle (cmd : String) (args : List String) : Except String String :=
   | "RANDOM" => run cmdRandom args
   | "SUCCS" => run cmdSuccs args
   | "HISTORY" => run cmdHistory args
+  | "NHISTORY" => run cmdNHistory args
   | "DFA_VALIDATE" => run (do let d ← dfa; pure (showRes (fun _ => "") d.validate)) args
   | "PING" => .ok "pong"
   | _ => .error s!"unknown command {cmd}"
